@@ -38,6 +38,7 @@ type uspec struct {
 	pw      string // raw password ("" = use hashed)
 	hashed  string // hex hashed password
 	nilUser bool
+	both    bool // the record carries pw AND hashed (validation accepts it; the hashed password is the credential)
 }
 
 // cred is the credential buildCredential should derive (nil = the entry must be skipped).
@@ -70,6 +71,9 @@ func userMap(us []uspec) map[string]*appctlpb.User {
 		pu := &appctlpb.User{Name: proto.String(u.name)}
 		if u.hashed != "" {
 			pu.HashedPassword = proto.String(u.hashed)
+			if u.both && u.pw != "" { // a record carrying both fields: the hashed password is the credential
+				pu.Password = proto.String(u.pw)
+			}
 		} else if u.pw != "" {
 			pu.Password = proto.String(u.pw)
 		}
@@ -405,9 +409,17 @@ func genUsers(g *vh.Rng, n int, coll []pair, tag string) ([]uspec, bool) {
 		}
 		used[nm] = true
 		u := uspec{mapKey: nm, name: nm, pw: "pw-" + tag + "-" + nm}
-		if g.Intn(4) == 0 { // configured through hashedPassword
+		switch g.Intn(6) {
+		case 0: // configured through hashedPassword
 			u.hashed = hex.EncodeToString(u.cred())
 			u.pw = ""
+		case 1: // both fields, consistent (what a store that keeps the plaintext writes)
+			u.hashed = hex.EncodeToString(u.cred())
+			u.both = true
+		case 2: // both fields, the hash of ANOTHER password: the hash is the registered credential, the raw password is not
+			h := sha256.Sum256(append(append([]byte("other-"+u.pw), 0), []byte(nm)...))
+			u.hashed = hex.EncodeToString(h[:])
+			u.both = true
 		}
 		us = append(us, u)
 	}
@@ -759,6 +771,24 @@ func discoverScenario(r *vh.Run, idx int, coll []pair, kp keyPool) {
 			}
 		case 4: // no usable user
 			pool = []uspec{{mapKey: "zz-empty-name", name: "", pw: "x"}}
+		case 5: // re-key through hashedPassword ONLY: name, map key and raw password (kept in the record) unchanged
+			pool = append([]uspec{}, pool...)
+			for i := range pool {
+				if pool[i].cred() != nil && (g.Intn(2) == 0 || i == 0) {
+					if pool[i].pw == "" {
+						pool[i].pw = fmt.Sprintf("kept-pw-%d", i)
+					}
+					h := sha256.Sum256([]byte(fmt.Sprintf("rekey-%s-%d-%d", id, ngen, i)))
+					pool[i].hashed, pool[i].both = hex.EncodeToString(h[:]), true
+				}
+			}
+		case 6: // the raw password of a record with both fields changes, the hash (the credential) does not
+			pool = append([]uspec{}, pool...)
+			for i := range pool {
+				if pool[i].cred() != nil && pool[i].hashed != "" {
+					pool[i].pw, pool[i].both = fmt.Sprintf("decoy-pw-%d-%d", ngen, i), true
+				}
+			}
 		}
 		registry.SetUsers(userMap(pool))
 		cur := serveruser.VerifCurrent(registry)
@@ -787,6 +817,9 @@ func discoverScenario(r *vh.Run, idx int, coll []pair, kp keyPool) {
 		}
 		if g.Intn(4) == 0 {
 			setMand(!mandatory)
+		}
+		if c := gidOf(serveruser.VerifCurrent(registry)); c != nil && len(c.reg) > 0 && round > 0 && g.Intn(3) == 0 {
+			publish([]int{5, 5, 6, 2}[g.Intn(4)]) // a completed reload that re-keys users in place before the next connection
 		}
 		cur := gidOf(serveruser.VerifCurrent(registry))
 		// whom the client is: a user of the current generation, of the generation that WILL be
@@ -833,7 +866,7 @@ func discoverScenario(r *vh.Run, idx int, coll []pair, kp keyPool) {
 			mandSeen := mandatory
 			if calls <= nReloads {
 				reloadsDone++
-				publish([]int{0, 0, 0, 1, 1, 1, 2, 2, 2, 3, 3, 4}[g.Intn(12)])
+				publish([]int{0, 0, 0, 1, 1, 1, 2, 2, 2, 3, 3, 4, 5, 5, 6}[g.Intn(15)])
 				if g.Intn(3) == 0 {
 					setMand(!mandatory)
 				}
